@@ -1,5 +1,6 @@
 """C09 Marker string form is canonical and round-trips."""
 import copy, json
+import core
 from core import Case
 import gen
 import gen_marker as G
@@ -10,7 +11,9 @@ RULE = ("random PEP 508 formula trees (depth <= 4 quick / <= 9 thorough; 'extra'
         "canonical text; pairs of layouts / extra-name spellings / outer parentheses of one tree (must be equal, hash alike, print alike, "
         "evaluate alike); pairs of a tree and a structurally perturbed tree (== must be str equality, as the model computes it); the round "
         "trip law Marker(str(m)) == m with equal str, hash and evaluation under sampled environments; Requirement('pkg ; ' + s).marker "
-        "against Marker(s); mutated texts.  non-trivial = accepted by Marker; distinct by text (pair)")
+        "against Marker(s) - also behind extras, version clauses (bare / parenthesised), a URL, and with a trailing newline; extra comparisons "
+        "placed 1..6 (thorough: ..12) groups deep, respelled (must stay equal) or changed to another name (must become unequal); markers nested "
+        "50..300 parentheses deep; a trailing newline; non-ASCII word characters next to keywords; mutated texts.  non-trivial = accepted by Marker; distinct by text (pair)")
 ASSUMPTIONS = [
     "quoted strings containing a backslash are outside the modelled domain (ast.literal_eval is an oracle; the backslash is not a PEP 508 "
     "string character): the model answers '?' and only 'no foreign exception' is checked there",
@@ -31,6 +34,56 @@ def compare(case, impl, model):
 
 def nontrivial(case, impl):
     return case.kind == "law" or impl != "I"
+
+
+DEEP_MIN = 480        # see c07.DEEP_MIN
+
+
+def paren_depth(s):
+    d = m = 0
+    q = None
+    for c in s:
+        if q: q = None if c == q else q
+        elif c in "'\"": q = c
+        elif c == "(": d += 1; m = max(m, d)
+        elif c == ")": d -= 1
+    return m
+
+
+def match_deep_nesting(case, impl, model):
+    """Proposed known finding ('any nesting depth'): a well-formed marker nested deeper than the interpreter's recursion limit allows makes
+    Marker() / str() / Requirement() raise RecursionError.  Instance = nesting depth >= DEEP_MIN, the implementation raised RecursionError, and
+    the model (where there is one) accepted the text."""
+    if impl != "!EXC:RecursionError": return False
+    if case.cmd not in ("k.str", "k.eq", "law.k.deep", "law.k.roundtrip", "law.k.req"): return False
+    if max(paren_depth(a) for a in case.args[:2 if case.cmd == "k.eq" else 1]) < DEEP_MIN: return False
+    return model is None or model in ("T", "F") or model.startswith("S")
+
+
+def _registered(name):
+    return any(f["matcher"] == name for f in core.load_findings("C09"))
+
+
+def other_name(rng, v):
+    """a name with a different PEP 503 normal form, close to v"""
+    k = rng.random()
+    if k < 0.3: return v + rng.choice(["x", "0", "-a"])
+    if k < 0.5 and len(v) > 1: return v[:-1]
+    if k < 0.7: return v.replace("-", "").replace("_", "").replace(".", "") + "q"
+    return "x" + v
+
+
+def change_extra_names(rng, f, fn):
+    """f with fn applied to the literal of every comparison with extra"""
+    if f[0] == "atom":
+        _, l, op, r = f
+        if ("var", "extra") in (l, r):
+            l2 = ("lit", fn(rng, l[1])) if l[0] == "lit" else l
+            r2 = ("lit", fn(rng, r[1])) if r[0] == "lit" else r
+            return ("atom", l2, op, r2)
+        return f
+    if f[0] == "paren": return ("paren", change_extra_names(rng, f[1], fn))
+    return (f[0], [change_extra_names(rng, g, fn) for g in f[1]])
 
 
 def perturb(rng, f):
@@ -143,6 +196,58 @@ def streams(rng, tier):
         out.append(Case("mutated", "k.str", [s]))
         if rng.random() < 0.3: out.append(Case("law-roundtrip", "law.k.roundtrip", [s, json.dumps(G.env_for(rng, f))], kind="law"))
         if rng.random() < 0.2: out.append(Case("law-req", "law.k.req", [s], kind="law"))
+    # extra comparisons deep inside: respelled names (equal markers), changed names (unequal markers)
+    for _ in range(700 if q else 15000):
+        f = G.extra_at_depth(rng, rng.randrange(1, 7 if q else 13))
+        s = G.render(rng, f, outer=rng.choice([0, 0, 1]))
+        envs = [json.dumps(G.env_for(rng, f)) for _ in range(2)]
+        f2 = change_extra_names(rng, f, G.respell_name)
+        s2 = G.render(rng, f2, outer=rng.choice([0, 1, 2]))
+        out.append(Case("extra-deep", "k.eq", [s, s2]))
+        out.append(Case("extra-deep", "k.str", [s2]))
+        out.append(Case("law-extra-deep", "law.k.variants", [s, s2] + envs, kind="law"))
+        f3 = change_extra_names(rng, f, other_name)
+        s3 = G.render(rng, f3)
+        out.append(Case("extra-deep-changed", "k.eq", [s, s3]))
+        out.append(Case("law-extra-deep", "law.k.distinct", [s, s3], kind="law"))
+    # the marker of a Requirement: behind extras / version clauses / a URL, with a trailing newline
+    for _ in range(900 if q else 20000):
+        f = G.rand_expr(rng, rng.randrange(3)) if rng.random() < 0.8 else G.extra_at_depth(rng, rng.randrange(1, 4))
+        s = G.render(rng, f)
+        if rng.random() < 0.1: s = gen.mutate(rng, s, G.MUT_CH)
+        out.append(Case("law-req-prefix", "law.k.req", [s, rng.choice(G.REQ_PREFIXES), rng.choice(["", "", "\n"])], kind="law"))
+    # long or-lists / and-lists
+    for _ in range(250 if q else 6000):
+        f = G.long_expr(rng, rng.randrange(4, 41))
+        s = G.render(rng, f, outer=rng.choice([0, 0, 1]))
+        out.append(Case("long-lists", "k.str", [s]))
+        out.append(Case("law-long-lists", "law.k.roundtrip", [s, json.dumps(G.env_for(rng, f))], kind="law"))
+        out.append(Case("long-lists", "k.eq", [s, G.render(rng, f, extra_spelling=True, outer=rng.choice([0, 2]))]))
+    # a trailing newline: END is '$'
+    for _ in range(250 if q else 6000):
+        f = G.rand_expr(rng, rng.randrange(3))
+        s = G.render(rng, f)
+        out.append(Case("newline", "k.eq", [s, s + "\n"]))
+        out.append(Case("newline", "k.str", [s + rng.choice(["\n", "\n\n", "\n ", "\r\n", " \n", "\t\n"])]))
+    # deep nesting
+    depths = [50, 100, 150, 200, 250, 300] + [rng.randrange(50, 301) for _ in range(4 if q else 40)]
+    for n in depths:
+        for t, v in G.deep_texts(rng, n):
+            out.append(Case("deep", "k.str", [t]))
+            out.append(Case("law-deep", "law.k.deep", [t, "T" if v else "F"], kind="law"))
+            out.append(Case("law-deep", "law.k.roundtrip", [t, json.dumps({"os_name": "b"})], kind="law"))
+        t = G.deep_texts(rng, n)[0][0]
+        out.append(Case("law-deep", "law.k.req", [t, rng.choice(G.REQ_PREFIXES), ""], kind="law"))
+    if _registered("match_deep_nesting"):
+        for n in [DEEP_MIN + 20, 600, 1000, 2000]:
+            for t, v in G.deep_texts(rng, n)[:3]:
+                out.append(Case("deep-beyond-recursion-limit", "k.str", [t]))
+                out.append(Case("deep-beyond-recursion-limit", "law.k.roundtrip", [t, json.dumps({"os_name": "b"})], kind="law"))
+            out.append(Case("deep-beyond-recursion-limit", "law.k.req", [G.deep_texts(rng, n)[0][0], "pkg", ""], kind="law"))
+    # non-ASCII word characters next to keywords
+    for _ in range(400 if q else 10000):
+        f = G.rand_expr(rng, rng.randrange(2))
+        out.append(Case("unicode-boundary", "k.str", [G.unicode_adjacent(rng, G.render(rng, f))]))
     # the literal_eval oracle boundary, per code point
     if q: out.append(Case("law-literal-eval", "law.k.literaleval", ["0", str(0x3000)], kind="law"))
     else: out += [Case("law-literal-eval", "law.k.literaleval", [str(a), str(a + 0x8000)], kind="law") for a in range(0, 0x110000, 0x8000)]
